@@ -152,10 +152,17 @@ func uncertain(r *OpResult) bool {
 	case "crashed", "aborted":
 		return true
 	}
+	streaming := r.Op.Kind == KImport || (r.Op.Kind == KBulk && r.Op.ContentType != "")
 	for _, f := range r.Faults {
 		switch f.Kind {
-		case FCommitAmbiguous, FCrash, FDisconnect, FBodyCut, FBodyErr:
+		case FCommitAmbiguous, FCrash, FDisconnect:
 			return true
+		case FBodyCut, FBodyErr, FBodyTrunc:
+			// a body that is decoded as a whole before anything is applied cannot have been applied
+			// when it was cut; streamed bodies may have been applied in part
+			if streaming {
+				return true
+			}
 		}
 	}
 	return false
@@ -297,6 +304,11 @@ func CheckLogsMatchOps(prop string, views map[string]*LedgerView, results []*OpR
 			k := name + "|" + li.Sig
 			if counts[k] == nil && importedFrom(results, name, li.Sig) {
 				continue // brought by an import: judged by the import oracles
+			}
+			if counts[k] == nil && li.Sig == "" && truncatedScriptStream(results) {
+				// the script-stream format accepts a last script without its end tag: a body that ends
+				// early but cleanly runs the part of the script that arrived (its signature line is missing)
+				continue
 			}
 			if counts[k] == nil {
 				vs = append(vs, Violation{prop, "log-explained-by-a-write", fmt.Sprintf("ledger %s log %d (%s sig=%q) corresponds to no write of the history", name, r.ID, li.Kind, li.Sig)})
@@ -853,6 +865,19 @@ func importedFrom(results []*OpResult, ledgerName, sig string) bool {
 					if o.Op.Elements[i].sig() == sig {
 						return true
 					}
+				}
+			}
+		}
+	}
+	return false
+}
+
+func truncatedScriptStream(results []*OpResult) bool {
+	for _, r := range results {
+		if r.Op.Kind == KBulk && r.Op.ContentType == "script-stream" {
+			for _, f := range r.Faults {
+				if f.Kind == FBodyTrunc {
+					return true
 				}
 			}
 		}
